@@ -200,13 +200,17 @@ def probe(s):
     return [ST[s.state.name], clone.data_to_send()]
 
 
-def run_history(role, calls):
+def run_history(role, calls, unenc=()):
     s = new_session(role)
     trace = []
-    for c in calls:
+    for i, c in enumerate(calls):
         o = outcome_of(s, c)
         trace.append([o, probe(s)])
     return trace
+
+
+def unenc_indices(c):
+    return [i for i, m in enumerate(c.get("meta") or []) if m == "unenc"]
 
 
 # ------------------------------------------------------------------ history generator
@@ -329,7 +333,12 @@ def gen_server_call(rng, sh):
     return [k, mid, code, msgs.g_text(rng), msgs.g_text(rng), cs]
 
 
-def gen_history(rng: random.Random, role=None, length=None, malformed=0.08, chunked=0.25):
+UNENCODABLE = [b"\xff", b"caf\xe9", b"x\xed\xa0\x80y", b"\x80"]
+UNENC_FIELD = {C_BIND: 1, C_EXT: 1, C_SEARCH: 1, S_BINDRESP: 5, S_EXTRESP: 6, S_ENTRY: 2, S_DONE: 4}
+REFUSED_UNENC = ["refused: a text argument has no UTF-8 form"]
+
+
+def gen_history(rng: random.Random, role=None, length=None, malformed=0.08, chunked=0.25, unenc=0.0):
     """Returns {"role", "calls", "meta"}; meta[i] for a RECV call = list of [id, opkind, rc, notice] of the
     well-formed messages the data consists of, or None when the data is not a clean sequence."""
     role = rng.randint(0, 1) if role is None else role
@@ -373,6 +382,15 @@ def gen_history(rng: random.Random, role=None, length=None, malformed=0.08, chun
             calls.append([UNBIND])
             meta.append(None)
         elif r < 0.55:
+            if unenc and rng.random() < unenc:
+                # a well-typed call one of whose str arguments cannot be encoded: it must be refused and leave no
+                # trace (no id consumed or recorded, no state change, nothing queued)
+                c = gen_client_call(rng, sh)[0] if role == CLIENT else gen_server_call(rng, sh)
+                if c[0] in UNENC_FIELD:
+                    c[UNENC_FIELD[c[0]]] = rng.choice(UNENCODABLE)
+                    calls.append(c)
+                    meta.append("unenc")
+                    continue
             if role == CLIENT:
                 c, kind = gen_client_call(rng, sh)
                 calls.append(c)
